@@ -27,6 +27,16 @@ def hx_axiom(q):
     return And(e >= q, Not(is_hex(Tsel(e))), z3.ForAll([p], Implies(And(q <= p, p < e), is_hex(Tsel(p)))))
 
 
+owsend = z3.Function("owsend", I, I)      # ghost: first position >= e whose byte is neither SP nor HTAB
+
+
+def ows_axiom(e):
+    s = owsend(e)
+    p = qvar("p")
+    isows = lambda c: in_class(c, [(9, 9), (32, 32)])
+    return And(s >= e, Not(isows(Tsel(s))), z3.ForAll([p], Implies(And(e <= p, p < s), isows(Tsel(p)))))
+
+
 def crlf2_at(p):
     return And(crlf_at(p), crlf_at(p + 2))
 
@@ -103,7 +113,10 @@ class ParseTrailers(Contract):
         return [(E.NoMoreData, And(Not(And(d + 2 <= N, crlf_at(d))), f2crlf(d) == -1))] + header_raises(c) + [oserror(c)]
 
     def exc_post(self, c):
-        return list(RI(c, c.a["unreader"]))
+        out = list(RI(c, c.a["unreader"]))
+        if c.exc is not None and c.exc.cls.__name__ == "NoMoreData":
+            out.append(("whole-stream-consumed", u_pos(c, c.a["unreader"]) == N))
+        return out
 
     def post(self, c):
         u = c.a["unreader"]
@@ -176,7 +189,9 @@ class ParseChunkSize(Contract):
     def pre(self, c):
         u = c.a["unreader"]
         q = self.q0(c)
-        out = list(RI(c, u)) + [("ghost:fcrlf-definition", fc_def(q, N)), ("ghost:hexend-definition", hx_axiom(q))]
+        out = list(RI(c, u)) + [("ghost:fcrlf-definition", fc_def(q, N)), ("ghost:fcrlf-definition@q", fc_axiom(q)),
+                                ("ghost:hexend-definition", hx_axiom(q)), ("ghost:owsend-definition", ows_axiom(hexend(q))),
+                                ("ghost:f2crlf-definition", f2_axiom(fcrlf(q) + 2))]
         req = c.st.obj(c.a["self"]).fields["req"]
         cfg = c.st.obj(req).fields["cfg"]
         out += [("unsafe:strip_header_spaces-off", Not(c.ex.truth(c.field(cfg, "strip_header_spaces"), c.st))),
@@ -229,11 +244,10 @@ class ParseChunkSize(Contract):
         size, rest = res.items
         F = fcrlf(q)
         e = hexend(q)
-        s = qvar("s")
         p = qvar("p")
-        ext_ok = Or(e == F, z3.Exists([s], And(e <= s, s < F, Tsel(s) == 59,
-                                               z3.ForAll([p], Implies(And(e <= p, p < s), in_class(Tsel(p), [(9, 9), (32, 32)]))),
-                                               z3.ForAll([p], Implies(And(s <= p, p < F), And(Tsel(p) != 0, Tsel(p) != 10, Tsel(p) != 13))))))
+        s = owsend(e)
+        ext_ok = Or(e == F, And(s < F, Tsel(s) == 59,
+                                z3.ForAll([p], Implies(And(s <= p, p < F), And(Tsel(p) != 0, Tsel(p) != 10, Tsel(p) != 13)))))
         out = list(RI(c, u)) + [
             ("chunk-header-line-found", F >= 0),
             ("size-is-1*HEXDIG-at-line-start", And(e > q, e <= F, size.t == hexval(T, q, e), size.t >= 0)),
@@ -256,7 +270,18 @@ class ParseChunkSize(Contract):
                                                                  And(L.st.obj(L.buf).content.length() == 0, u_pos(_C(L), L.unreader, L.st) == _q(L)))),
         ("buf==T[q:pos)", lambda L: is_T(L.st.obj(L.buf).content, _q(L), u_pos(_C(L), L.unreader, L.st) if True else 0)),
         ("pos>=q", lambda L: u_pos(_C(L), L.unreader, L.st) >= _q(L)),
+        ("idx==find(CRLF)", lambda L: _idx1_inv(L)),
     ])}
+
+
+def _idx1_inv(L):
+    q = _q(L)
+    pos = u_pos(_C(L), L.unreader, L.st)
+    idx = L.st.locals["idx"].t
+    p = qvar("p")
+    return Or(And(idx == -1, z3.ForAll([p], Implies(And(q <= p, p + 2 <= pos), Not(crlf_at(p))))),
+              And(idx >= 0, q + idx + 2 <= pos, crlf_at(q + idx),
+                  z3.ForAll([p], Implies(And(q <= p, p < q + idx), Not(crlf_at(p))))))
 
 
 def _q(L):
